@@ -566,10 +566,30 @@ fn do_step(pool: &mut Pool, t: &[&str]) -> Result<usize, &'static str> {
             let kind = t[1];
             let (d, a, b, e) = (s(2), s(3), s(4), s(5));
             let m: UBig = pool[b].clone().unsigned_abs();
-            if m <= UBig::ONE {
+            if m <= UBig::ONE && kind != "new0" {
                 return Err("e");
             }
             let r: IBig = match kind {
+                "new0" => {
+                    // no precondition: ConstDivisor::new(0) panics (documented) after the modulus was taken
+                    let ring = ConstDivisor::new(take(&mut pool[b]).unsigned_abs());
+                    ring.value().into()
+                }
+                "cf" => {
+                    // Reduced::clone_from between elements of two rings (moduli of different lengths): y2 is an element of
+                    // the ring over |pool[d]| (when that is a valid modulus), it becomes a copy of x
+                    let ring = ConstDivisor::new(m);
+                    let x = ring.reduce(pool[a].clone());
+                    let m2: UBig = pool[d].clone().unsigned_abs();
+                    if m2 > UBig::ONE {
+                        let ring2 = ConstDivisor::new(m2);
+                        let mut y2 = ring2.reduce(0u8);
+                        y2.clone_from(&x);
+                        y2.residue().into()
+                    } else {
+                        x.residue().into()
+                    }
+                }
                 "new" => {
                     // the modulus is moved into the divisor (slot b becomes zero) and read back
                     let ring = ConstDivisor::new(take(&mut pool[b]).unsigned_abs());
@@ -636,6 +656,40 @@ fn do_step(pool: &mut Pool, t: &[&str]) -> Result<usize, &'static str> {
             };
             pool[d] = r;
             Ok(d)
+        }
+        "isqrt" => {
+            // <IBig as SquareRoot>::sqrt: panics (documented) for a negative operand
+            let (d, a) = (s(1), s(2));
+            let r = pool[a].sqrt();
+            pool[d] = r.into();
+            Ok(d)
+        }
+        "sqrtrem" => {
+            let (d, e, a) = (s(1), s(2), s(3));
+            if !nonneg(pool, &[a]) || d == e {
+                return Err("e");
+            }
+            let (q, r) = dashu_base::SquareRootRem::sqrt_rem(ref_u(pool, a));
+            pool[d] = q.into();
+            pool[e] = r.into();
+            Ok(d)
+        }
+        "inot" => {
+            let (form, d, a) = (t[1], s(2), s(3));
+            let r: IBig = if form == "v" { !take_i(pool, a) } else { !ref_i(pool, a) };
+            pool[d] = r;
+            Ok(d)
+        }
+        "pstr" => {
+            // IBig::from_str_radix(text, radix): the parser is the thing under test (buffer of estimated size, error exits)
+            let (d, radix) = (s(1), s(2) as u32);
+            match IBig::from_str_radix(t[3], radix) {
+                Ok(v) => {
+                    pool[d] = v;
+                    Ok(d)
+                }
+                Err(_) => Err("perr"),
+            }
         }
         "addp" | "mulp" | "subp" => {
             // arithmetic with a primitive operand, assigned in place
